@@ -509,7 +509,7 @@ class Evaluator:
             return object.__new__(FullEvaluator)
         return object.__new__(cls)
 
-    def __init__(self, mod, inline=True, branch_policy=None, call_policy=None, max_depth=6, import_policy=None,
+    def __init__(self, mod, inline=True, branch_policy=None, call_policy=None, max_depth=14, import_policy=None,
                  sign_policy=None):
         self.mod = mod
         self.events = []                  # ordered (kind, name, [arg values]) of module / import / linalg calls on the path
@@ -1359,6 +1359,9 @@ class Evaluator:
             return v
         if isinstance(op, (ast.Is, ast.IsNot)):
             r = (a is b) if (a is None or b is None or isinstance(a, bool) or isinstance(b, bool)) else None
+            if r is None and isinstance(a, (list, tuple, dict, Obj)) and isinstance(b, (list, tuple, dict, Obj)) \
+                    and not is_tagged(a) and not is_tagged(b):
+                r = a is b         # containers and records keep their identity in this interpreter (module constants are cached)
             # (a number, string or array is never the object None / True / False: `1 is True` is False)
             if r is None:
                 raise AnalysisError("E3: `is` on non-singletons (line %d)" % node.lineno)
@@ -1790,6 +1793,19 @@ class Evaluator:
             if len(out) > 100000:
                 raise AnalysisError("E3: itertools.product too long (line %d)" % node.lineno)
             return out
+        if name in ("itertools.takewhile", "itertools.dropwhile") and len(args) == 2:
+            seq_ = self.as_sequence(args[1], node)
+            k_ = 0
+            for x_ in seq_:
+                t_ = self.call_value(args[0], [x_], node)
+                if isinstance(t_, Rat) and t_.is_const():
+                    t_ = t_.const_value() != 0
+                if not isinstance(t_, bool):
+                    raise AnalysisError("E3: %s with a predicate that is not decided (line %d)" % (name, node.lineno))
+                if not t_:
+                    break
+                k_ += 1
+            return seq_[:k_] if name.endswith("takewhile") else seq_[k_:]
         if name == "itertools.starmap" and len(args) == 2:
             return [self.call_value(args[0], list(self.as_sequence(t_, node)), node) for t_ in self.as_sequence(args[1], node)]
         if name == "itertools.accumulate" and 1 <= len(args) <= 2 and set(kwargs) <= {"initial"}:
@@ -2005,6 +2021,8 @@ class Evaluator:
             return out
         if name == "iter" and len(args) == 1:
             return self.as_sequence(args[0], node)
+        if name == "next" and len(args) >= 1 and isinstance(args[0], tuple) and not is_tagged(args[0]):
+            args = [list(args[0])] + list(args[1:])
         if name == "next" and len(args) >= 1 and isinstance(args[0], list):
             if args[0]:
                 return args[0].pop(0)
@@ -2054,6 +2072,12 @@ class Evaluator:
         raise AnalysisError("E3: builtin %s unsupported (line %d)" % (name, node.lineno))
 
     def method_call(self, base, attr, args, kwargs, node):
+        if isinstance(base, tuple) and len(base) == 2 and base[0] in ("builtin", "type") and base[1] == "str" and args and isinstance(args[0], str) \
+                and attr in ("isalpha", "isdigit", "isspace", "isupper", "islower", "isalnum", "upper", "lower", "strip", "lstrip", "rstrip", "title",
+                             "capitalize", "startswith", "endswith") and all(isinstance(a_, str) for a_ in args) and not kwargs:
+            return getattr(str, attr)(*args)               # str.method(text, ...) on constant text
+        if isinstance(base, str) and not args and not kwargs and attr in ("isalpha", "isdigit", "isspace", "isupper", "islower", "isalnum", "title", "capitalize"):
+            return getattr(base, attr)()
         if isinstance(base, tuple) and len(base) == 2 and base[0] == "regex" and attr == "sub" and len(args) == 2 \
                 and all(isinstance(x_, str) for x_ in args):
             import re as _re
@@ -2685,6 +2709,10 @@ class Evaluator:
                     return [rec(x) for x in d] if isinstance(d, list) else sg(d)
                 return Arr(rec(A.data))
             return sg(v)
+        if name == "modf" and len(args) == 1 and not kwargs:
+            # (fractional part with the sign of x, whole part): x - fix(x), fix(x)
+            whole = self._np_call("fix", [args[0]], {}, node)
+            return (self.binop(ast.Sub(), args[0], whole, node), whole)
         if name == "swapaxes" and len(args) == 3 and not kwargs:
             A_ = args[0] if isinstance(args[0], Arr) else materialise(args[0])
             i_, j_ = const_int(args[1]), const_int(args[2])
